@@ -366,6 +366,20 @@ func c04Units(tier string) []interface{} {
 		}
 	}
 	if tier != "thorough" {
+		// quick: opposite-direction pairs on pool 1 (the end-blocker's reverse-pair logic) with every
+		// companion before/after, from R1
+		fwd, rev := []int{0, 1, 2, 4, 8}, []int{3, 5}
+		for _, i := range fwd {
+			for _, j := range rev {
+				for _, pair := range [][]int{{i, j}, {j, i}} {
+					for _, c := range comps {
+						for _, after := range []bool{false, true} {
+							us = append(us, c04Unit{Root: "R1", Reqs: pair, Comp: c, After: after})
+						}
+					}
+				}
+			}
+		}
 		return us
 	}
 	for i := 0; i < n; i++ {
@@ -396,7 +410,7 @@ func RunC04(tier string) int {
 		names = append(names, r.Name)
 	}
 	bounds := map[string]interface{}{"requests": names, "companions": c04Companions, "roots": []string{"R0", "R1"}, "blocks_enumerated": len(units),
-		"composition": "quick: every 1- and ordered 2-request block + every single request with each companion before/after; thorough: + every ordered 2-request block with each companion (R1) + every ordered 3-request block"}
+		"composition": "quick: every 1- and ordered 2-request block + every single request with each companion before/after + every opposite-direction pair on pool 1 with each companion before/after (R1); thorough: + every ordered 2-request block with each companion (R1) + every ordered 3-request block"}
 	return KConclude("C04", tier, "W: exhaustive enumeration of swap-request batches as real blocks on the real ElysApp (store rollback between batches)", "each unit is one real block holding an ordered selection of swap requests (own sender/recipient each) plus optionally one price-moving tx before or after them, followed by one empty block; balances of every sender/recipient are compared before/after", []string{"request amounts/limits as listed; two roots", "the end-blocker's pick order is a deterministic function of the transient keys: all tx orders are enumerated"}, sum, bounds,
 		func(f KFinding) bool {
 			b, _ := json.Marshal(f.Input)
